@@ -186,7 +186,7 @@ def replay_verifier(d):
         def I(self, n, lo, hi):
             return d["ints"][n]
 
-    desc = vc.permute(vc.skeletons("quick")[d["skeleton"]](CS()), d["perm"])
+    desc = vc.permute(vc.skeletons("thorough")[d["skeleton"]](CS()), d["perm"])
     spec = z3.is_true(z3.simplify(vc.SPECS[d["plugin"]](desc)))
     from fcp.verifier import make_general_verifier
 
@@ -1053,6 +1053,117 @@ def replay_cpp_decode(d):
         if so != want:
             return True, f"{cc}: Decode({d['bytes']}) dumps {so}, reference decoding {want}"
     return False, "Decode gives the reference value"
+
+
+_CAN_MAIN = r"""
+#include <cstdio>
+#include <cstring>
+#include <memory>
+#include "can.h"
+#include "fcp.h"
+#include "can_static_schema.h"
+using json = nlohmann::json;
+static void __attribute__((noinline)) dirty() { volatile unsigned char a[8192]; for (unsigned i = 0; i < sizeof a; i++) a[i] = 0xAA; }
+int main(int argc, char** argv) {
+    fcp::can::Can can{std::make_shared<fcp::can::CanStaticSchema>(fcp::can::CanStaticSchema{})};
+    try {
+        if (argv[1][0] == 'e') {
+            json j = json::parse(argv[3]);
+            dirty();
+            auto f = can.Encode(argv[2], j);
+            if (!f.has_value()) { printf("nullopt\n"); return 0; }
+            unsigned char out[15]; std::memcpy(out, f->bus.data(), 4); std::memcpy(out + 4, &f->sid, 2); out[6] = f->dlc;
+            std::memcpy(out + 7, f->data.data(), 8);
+            for (int i = 0; i < 15; i++) printf("%02x", out[i]);
+            printf("\n");
+        } else {
+            unsigned char in[15];
+            for (int i = 0; i < 15; i++) { unsigned v; sscanf(argv[2] + 2 * i, "%2x", &v); in[i] = (unsigned char)v; }
+            fcp::can::frame_t f; std::memcpy(f.bus.data(), in, 4); std::memcpy(&f.sid, in + 4, 2); f.dlc = in[6];
+            std::memcpy(f.data.data(), in + 7, 8);
+            auto r = can.Decode(f);
+            if (!r.has_value()) { printf("nullopt\n"); return 0; }
+            printf("%s %s\n", r->first.c_str(), r->second.dump().c_str());
+        }
+    } catch (const std::exception& e) { printf("exception %s\n", e.what()); }
+    return 0;
+}
+"""
+
+
+def _native_can(d, argv, compilers=("clang++-14", "g++")):
+    """Builds the generated CAN wrapper with a small main that goes through fcp::can::Can and real JSON."""
+    import os
+
+    from . import cxx
+    from .native import Scratch, run
+
+    outs = []
+    with Scratch() as dd:
+        if d.get("_primed") and d.get("decoy_text"):
+            from .prime import prime
+            prime(d["decoy_text"], ("cpp",))
+        cxx.generate_cpp(d["schema_text"], dd)
+        open(os.path.join(dd, "main.cpp"), "w").write(_CAN_MAIN)
+        for cc in compilers:
+            rc, so, se = run([cc, "-std=c++17", "-O1", "-w", "-I", dd, "-I", cxx.THIRD_PARTY, "main.cpp",
+                              "-o", os.path.join(dd, "a.out")], cwd=dd, timeout=900)
+            if rc:
+                outs.append((cc, "compile-error", se[-600:]))
+                continue
+            if argv is None:
+                outs.append((cc, 0, ""))
+                continue
+            rc, so, se = run([os.path.join(dd, "a.out")] + argv, cwd=dd, timeout=60)
+            outs.append((cc, rc, so.strip() if rc == 0 else f"crashed rc={rc} {se[-200:]}"))
+    return outs
+
+
+def replay_can_compile(d):
+    outs = _native_can(d, None)
+    bad = [o for o in outs if o[1] == "compile-error"]
+    if bad:
+        return True, f"generated CAN wrapper does not compile with {bad[0][0]}: {bad[0][2][-300:]}"
+    return False, "compiles"
+
+
+def replay_can_encode(d):
+    import json as _json
+
+    e = d["expected"]
+    n = len(e["data"])
+    want = "".join(f"{b:02x}" for b in e["bus"] + [e["sid"] & 0xFF, e["sid"] >> 8, n] + e["data"])
+    for cc, rc, so in _native_can(d, ["e", d["name"], _json.dumps(d["value"])]):
+        if rc == "compile-error":
+            return True, f"does not compile with {cc}: {so[-200:]}"
+        if so[:len(want)] != want or len(so) != 30:
+            return True, (f"{cc}: Can::Encode({d['name']!r}, {_json.dumps(d['value'])}) = {so} (bus[4] sid[2] dlc data[8]); "
+                          f"expected bus {bytes(e['bus'])!r}, id {e['sid']}, dlc {n}, data {bytes(e['data']).hex()}")
+    return False, "frame carries the binding's bus, id, size and canonical bytes"
+
+
+def replay_can_decode(d):
+    import json as _json
+
+    e = d["expected"]
+    hexin = "".join(f"{b:02x}" for b in d["frame"])
+    for cc, rc, so in _native_can(d, ["d", hexin]):
+        if rc == "compile-error":
+            return True, f"does not compile with {cc}: {so[-200:]}"
+        if e["name"] is None:
+            if so != "nullopt":
+                return True, f"{cc}: Can::Decode(frame {hexin}) = {so}, but (id, bus) matches no binding"
+            continue
+        if so == "nullopt" or so.startswith(("exception", "crashed")):
+            return True, f"{cc}: Can::Decode(frame {hexin}) = {so}, expected {e['name']} {_json.dumps(e['value'])}"
+        name, _, js = so.partition(" ")
+        try:
+            val = _json.loads(js)
+        except ValueError:
+            return True, f"{cc}: Can::Decode(frame {hexin}) = {so}"
+        if name != e["name"] or val != e["value"]:
+            return True, f"{cc}: Can::Decode(frame {hexin}) = {so}, expected {e['name']} {_json.dumps(e['value'])}"
+    return False, "decodes to the binding's name and the original value" if e["name"] else "reported as unknown"
 
 
 def replay_cpp_carrier(d):
